@@ -39,3 +39,12 @@ Theorem C01_flat : forall meth panics_inside mutating
   C01_statement rules meth panics_inside es c order.
 Proof. exact FrameTheorems.C01_flat. Qed.
 Print Assumptions C01_flat.
+
+(* an instance with nothing left to assume: a GRL text, parsed by the parser model, found flat by computation
+   (proofs/EndToEnd.v) *)
+From Grule Require Import Methods Lexer Parser EndToEnd.
+Theorem C01_sample : forall es, NoDup (map e_key es) -> forall c, (0 <= c_max c)%Z ->
+  forall order, (forall i l, Permutation.Permutation (order i l) l) ->
+  parse_grl sample_text = Ok sample_rules /\ C01_statement sample_rules ex_meth fact_panics_inside es c order.
+Proof. intros. split; [exact sample_parses|apply sample_C01; assumption]. Qed.
+Print Assumptions C01_sample.
